@@ -14,4 +14,5 @@ CONSTANTS MaxEp = 3
           MaxRF = 0
           KF_Overtake = TRUE
 PROPERTY LHeals
+PROPERTY RefinesLifecycle
 CHECK_DEADLOCK FALSE
